@@ -347,3 +347,36 @@ Print Assumptions simplify_sound_program3.
 Theorem vrel3_data : forall v v', vrel3 v v' -> data_of v = data_of v'.
 Proof. exact Sem3Proofs.vrel3_data. Qed.
 Print Assumptions vrel3_data.
+
+(** ROUND 3 — the pass ORDER of the code for an operator that only BECOMES a lambda by simplification (simplify.c:27-28
+    simplifies a non-lambda operator, the let test at line 61 then looks at the SIMPLIFIED operator: ((if #t (lambda (x) B)
+    F) 1), ((begin 'a (lambda (x) B)) 1) get the parameter deletion and their body is simplified a SECOND time).
+    C09/Simplify2.v [simpN n] / C09/Kinded2.v [ksimpN n] mirror exactly that ([n] bounds the nesting of second passes;
+    level 0 is the structurally recursive model of the theorems above).  The implementation's optimised AST is compared
+    token for token with [ksexp_simplifyN] on every generated program. *)
+From ChibiV Require Import C09.Simplify2 C09.Kinded2 C09.Simplify2Proofs.
+
+(** the kind-exact exact-order model refines the plain one, for every level *)
+Theorem ksimpN_refines_simpN : forall n e d S il, erase (ksimpN n d e S il) = simpN n (erase e) (map erase_subst S) il.
+Proof. exact Simplify2Proofs.erase_ksimpN. Qed.
+Print Assumptions ksimpN_refines_simpN.
+
+Theorem ksimpN_dyn_independent : forall n e d d' S il, ksimpN n d e S il = ksimpN n d' e S il.
+Proof. exact Simplify2Proofs.ksimpN_dyn_independent. Qed.
+Print Assumptions ksimpN_dyn_independent.
+
+(** where no application has an `if` or a `begin` in operator position — the only shapes that can simplify to a lambda —
+    the exact-order pass IS the proved model, at every level: all soundness theorems above speak about the code's pass.
+    PARTIAL for the remaining programs (second pass really taken): their soundness is not proved (the value relation of
+    simplify_sound_data is not transitive, so two passes over one body do not compose); every generated program of that
+    kind is validated individually (SPEC result and output before = after, third interpreter) on each run. *)
+Theorem simpN_is_simplify_without_operator_towers_partial : forall n e S il, no_tower e = true -> simpN n e S il = simplify e S il.
+Proof. exact Simplify2Proofs.simpN_no_tower. Qed.
+Print Assumptions simpN_is_simplify_without_operator_towers_partial.
+
+(** non-vacuity: the second pass happens, changes the result of the level-0 model, and one level suffices here *)
+Theorem second_pass_example :
+  simpN 1 ex_tower [] false = Lam 1 [] false [] (App (Lam 2 [11] false [] (App (Op 0) [Lit (CInt 5); Ref 11 2; Lit (CInt 1)])) [Ref 12 0]) /\
+  simpN 1 ex_tower [] false <> simplify ex_tower [] false /\ simpN 1 ex_tower [] false = simpN 2 ex_tower [] false.
+Proof. exact (conj Simplify2Proofs.ex_tower_simpN1 (conj Simplify2Proofs.ex_tower_differs Simplify2Proofs.ex_tower_stable)). Qed.
+Print Assumptions second_pass_example.
